@@ -50,27 +50,27 @@ type Client struct {
 	maxPayload   int64
 	openAt       time.Duration
 
-	transport string
-	opened    bool
-	closed    bool // client considers the connection gone
-	stopped   bool // silent (partition)
-	paused    bool
-	pausing   bool
-	polling   bool
-	posting   bool
-	lateN     int
-	candDead  bool
-	upgrading bool
-	sendQ     []ref.Packet
-	pollResp  *Resp
-	postResp  *Resp
-	stream    streamConn // current stream transport after upgrade or direct ws/wt
-	cand      streamConn
-	pingN     int
-	nPoll     int
-	nTask     int
-	why       string
-	rawConns  []rawConn
+	transport   string
+	opened      bool
+	closed      bool // client considers the connection gone
+	stopped     bool // silent (partition)
+	paused      bool
+	pausing     bool
+	polling     bool
+	posting     bool
+	lateN       int
+	deadStreams map[streamConn]bool // candidate connections whose stream has ended
+	upgrading   bool
+	sendQ       []ref.Packet
+	pollResp    *Resp
+	postResp    *Resp
+	stream      streamConn // current stream transport after upgrade or direct ws/wt
+	cand        streamConn
+	pingN       int
+	nPoll       int
+	nTask       int
+	why         string
+	rawConns    []rawConn
 }
 
 func (c *Client) rec(kind, s string, n int64) int { return c.w.rec(c.name, kind, s, n) }
@@ -657,8 +657,11 @@ func (c *Client) streamReader(s streamConn) {
 			c.rec("c-stream-end", s.kind()+": "+err.Error(), 0)
 			if c.stream == s {
 				c.fail("stream closed: " + err.Error())
-			} else if c.cand == s {
-				c.candDead = true
+			} else {
+				if c.deadStreams == nil {
+					c.deadStreams = map[streamConn]bool{}
+				}
+				c.deadStreams[s] = true
 			}
 			return
 		}
@@ -690,7 +693,6 @@ func (c *Client) probe(kind string, script []CandOp) {
 		return
 	}
 	c.cand = s
-	c.candDead = false
 	c.rec("c-probe-start", kind, 0)
 	if script != nil {
 		c.playCandidate(s, script)
@@ -811,12 +813,12 @@ func (c *Client) playCandidate(s streamConn, script []CandOp) {
 				watching = true
 				c.spawn("reader", func() { c.streamReader(s) })
 				c.pausing = true
-				simrt.Block(func() bool { return c.closed || c.candDead || (!c.polling && !c.posting) })
+				simrt.Block(func() bool { return c.closed || c.deadStreams[s] || (!c.polling && !c.posting) })
 				if c.closed {
 					s.close()
 					return
 				}
-				if c.candDead {
+				if c.deadStreams[s] {
 					c.pausing, c.paused = false, false
 					c.rec("c-cand-end", "candidate lost while pausing", 0)
 					return
